@@ -119,11 +119,37 @@ def _copy_protocol(ctx):
         ctx.seen(('copyproto', how, tuple(keys), side, added, removed), True)
         ctx.count('handlers_copy_protocol_' + how)
 
+
+def _quoted_backslash_end(ctx):
+    """A quoted parameter value whose last character is an escaped backslash ("x\\") is a complete quoted-string (RFC 9110 5.6.4); the
+    parameters after it (the weight!) belong to the range.  KNOWN FINDING F46: the parameter splitter copied from the CPython 3.8 stdlib
+    (`_parse_param_old_stdlib`) decides "inside quotes" by the parity of `"` minus `\"` counts, takes the closing quote of such a value for an
+    escaped one, and swallows everything up to the next quote or the end - the weight is lost.  Exactly that class is reported under the `what`
+    the known-findings file lists; values with a backslash elsewhere are judged by the general oracle."""
+    from falcon.util import mediatypes as mt
+    name = 'quoted parameter values ending in an escaped backslash: the following parameters still count'
+    for val in ('x\\', '\\', 'a b\\', 'q=1\\'):
+        q = '"' + val.replace('\\', '\\\\').replace('"', '\\"') + '"'
+        for tail, exp in ((';q=0', 0.0), (';q=0.5', 0.5), (' ; q=0.25;v=1', 0.25)):
+            hdr = 'text/html;title=' + q + tail
+            what = None
+            try:
+                got = mt.quality('text/html', hdr)
+                if got != exp:
+                    what = ('a quoted parameter value ending in an escaped backslash swallows the parameters after it (the weight is lost)'
+                            if got == 1.0 else f'quality {got}, the header says {exp}')
+            except Exception as e:  # noqa
+                what = f'{type(e).__name__}: {e}'
+            ctx.oracle(name, what is None, what, {'header': hdr, 'expected_quality': exp})
+            ctx.seen(('qbs', hdr), True)
+
 def run(ctx):
     _negotiation(ctx)
     _handlers(ctx)
     _requests(ctx)
     _copy_protocol(ctx)
+    if ctx.shard[0] == 0:
+        _quoted_backslash_end(ctx)
 
 
 def hexs(s):
